@@ -1,6 +1,8 @@
 package props
 
 import (
+	"strings"
+	"regexp"
 	"go/token"
 
 	"gedverif/internal/cg"
@@ -143,6 +145,45 @@ func C15(p *load.Prog, r *oblig.Run) {
 			}
 			if inc && exceedSucc >= 0 && !su.ReachableBlocks(b.Succs[exceedSucc])[c.Block()] {
 				guarded = true
+			}
+		}
+		if !guarded {
+			// the same test behind a boolean helper, or written the other way round: facts on every path to the call
+			env := &descEnv{p: p, params: map[*ssa.Parameter]string{}}
+			fieldRe := regexp.MustCompile(`^p\d+\.(\w+)$`)
+			field := ""
+			within := env.holdsAny(c.Block(), func(f cfact) bool {
+				i := strings.LastIndex(f.atom, "<")
+				if i < 0 || strings.Contains(f.atom, "==") {
+					return false
+				}
+				a, b := f.atom[:i], f.atom[i+1:]
+				if m := fieldRe.FindStringSubmatch(b); m != nil && !f.val { // !(limit < depth)
+					field = m[1]
+					return true
+				}
+				if m := fieldRe.FindStringSubmatch(a); m != nil && f.val { // depth < limit
+					field = m[1]
+					return true
+				}
+				return false
+			})
+			if within {
+				for _, b2 := range ve.Blocks {
+					for _, ins := range b2.Instrs {
+						st, ok := ins.(*ssa.Store)
+						if !ok {
+							continue
+						}
+						f2, ok := st.Addr.(*ssa.FieldAddr)
+						if !ok || rootParam(f2.X) == nil || su.FieldName(f2) != field {
+							continue
+						}
+						if add, ok := st.Val.(*ssa.BinOp); ok && add.Op == token.ADD && (st.Block() == c.Block() || st.Block().Dominates(c.Block())) {
+							guarded = true
+						}
+					}
+				}
 			}
 		}
 		if guarded {
